@@ -17,7 +17,7 @@
 EXTENDS ServerAbs, Json, IOUtils, TLCExt, Integers
 
 Rec_ == ndJsonDeserialize(IOEnv.TRACE)
-VARIABLES l, fault
+VARIABLES l, fault      \* fault = [p: configured fault percentage, b: configured batch_size (0 = unknown)] of the section
 tvars == <<reqs, roots, totals, l, fault>>
 
 Bad(reasons) == IF reasons = {} THEN TRUE ELSE TLCSet(2, TLCGet(2) \o <<[i |-> l, why |-> reasons]>>)
@@ -25,7 +25,7 @@ SetOf(seq) == {seq[i] : i \in 1..Len(seq)}
 
 ZeroTotals == [arrivals |-> 0, replies |-> 0, bytes |-> 0, greased |-> 0, failing |-> 0]
 
-TInit == /\ l = 1 /\ TLCSet(2, <<>>) /\ reqs = NoReqs /\ roots = {} /\ totals = ZeroTotals /\ fault = 0
+TInit == /\ l = 1 /\ TLCSet(2, <<>>) /\ reqs = NoReqs /\ roots = {} /\ totals = ZeroTotals /\ fault = [p |-> 0, b |-> 0]
 
 Rp(e) == [sock |-> e.sock, len |-> e.len, parse |-> e.parse, v |-> e.v, frame_ok |-> e.frame_ok,
           nonce_reqs |-> SetOf(e.nonce_reqs), proof_reqs |-> SetOf(e.proof_reqs), has_nonce |-> e.has_nonce,
@@ -41,14 +41,14 @@ TNext ==
     /\ l <= Len(Rec_)
     /\ LET e == Rec_[l] IN
        CASE e.ev = "new" -> /\ Bad(IF e.announced_ok THEN {} ELSE {"announced_key"})
-                            /\ reqs' = NoReqs /\ roots' = {} /\ totals' = ZeroTotals /\ fault' = e.fault
+                            /\ reqs' = NoReqs /\ roots' = {} /\ totals' = ZeroTotals /\ fault' = [p |-> e.fault, b |-> e.batch]
          [] e.ev = "round" -> (IF "discarded" \in DOMAIN e THEN UNCHANGED <<reqs, roots, totals>> ELSE RoundBegin) /\ UNCHANGED fault
          [] e.ev = "arrive" -> Receive(e.sock, e.f) /\ UNCHANGED fault
          [] e.ev = "pumped" -> /\ Bad((IF e.panic THEN {"panic"} ELSE {}) \cup (IF e.wedged THEN {"wedged"} ELSE {}))
                                /\ UNCHANGED <<reqs, roots, totals, fault>>
          [] e.ev = "reply" -> /\ Bad(RespondReasons(Rp(e)) \cup RootReasons(Rp(e)))
                               /\ Respond(Rp(e)) /\ UNCHANGED fault
-         [] e.ev = "round_end" -> /\ Bad(RoundEndReasons) /\ UNCHANGED <<reqs, roots, totals, fault>>
+         [] e.ev = "round_end" -> /\ Bad(RoundEndReasons \cup BatchReasons(fault.b)) /\ UNCHANGED <<reqs, roots, totals, fault>>
          [] e.ev = "hc_round" -> /\ Bad(IF e.ok200 = e.conns /\ e.connected = e.conns THEN {} ELSE {"health_check_unanswered"})
                                  /\ UNCHANGED <<reqs, roots, totals, fault>>
          [] e.ev = "log" -> /\ Bad(IF e.leak THEN {"leak_in_log"} ELSE {}) /\ UNCHANGED <<reqs, roots, totals, fault>>
@@ -59,7 +59,7 @@ TNext ==
                      \cup (IF e.bytes = totals.bytes THEN {} ELSE {"stats_bytes"}))
               /\ UNCHANGED <<reqs, roots, totals, fault>>
          [] e.ev = "grease_end" ->
-              /\ Bad(IF totals.replies >= e.min_replies /\ GreaseOk(totals.failing, totals.replies, fault) THEN {} ELSE {"fault_rate"})
+              /\ Bad(IF totals.replies >= e.min_replies /\ GreaseOk(totals.failing, totals.replies, fault.p) THEN {} ELSE {"fault_rate"})
               /\ UNCHANGED <<reqs, roots, totals, fault>>
          [] OTHER -> Bad({"unknown_event"}) /\ UNCHANGED <<reqs, roots, totals, fault>>
     /\ l' = l + 1
